@@ -1,13 +1,16 @@
 #!/bin/sh
 # confirms a seeded change in its own worktree: demo fails with the change, passes without, full suite passes with it
-# usage: tools/seed_confirm.sh <worktree>
+# usage: [FEATURES="--features async"] tools/seed_confirm.sh <worktree>   (FEATURES applies to the demonstration only)
+# (git stash is shared between the worktrees of one repository: the change is taken out and put back with git apply)
 wt=$1
 cd $wt || exit 2
 export CARGO_NET_OFFLINE=true
-echo "== demo with the change"; cargo test --offline --test seeded_demo 2>&1 | grep -E "^test result|panicked|error(\[|:)" | head -5
-git stash push -q -- src
-echo "== demo without the change"; cargo test --offline --test seeded_demo 2>&1 | grep -E "^test result|panicked|error(\[|:)" | head -5
-git stash pop -q
-mv tests/seeded_demo.rs /tmp/seeded_demo_$$.rs
+echo "== demo with the change"; cargo test --offline $FEATURES --test seeded_demo 2>&1 | grep -E "^test result|panicked|error(\[|:)" | head -5
+git diff -- src > .seed_confirm.diff
+git apply -R .seed_confirm.diff
+echo "== demo without the change"; cargo test --offline $FEATURES --test seeded_demo 2>&1 | grep -E "^test result|panicked|error(\[|:)" | head -5
+git apply .seed_confirm.diff
+mv tests/seeded_demo.rs .seeded_demo.rs.aside
 echo "== full suite with the change"; cargo test --workspace --no-fail-fast --offline 2>&1 | grep -E "^test result" | awk '{p+=$4; f+=$6} END {print "passed " p " failed " f}'
-mv /tmp/seeded_demo_$$.rs tests/seeded_demo.rs
+mv .seeded_demo.rs.aside tests/seeded_demo.rs
+rm -f .seed_confirm.diff
